@@ -390,6 +390,7 @@ func checkC07(c *runCtx) {
 		{fmt.Sprintf("2x2 session, data and foreign traffic at every position, D<=%d", dev), pairCfg{KindsA: h2, KindsB: h2, Ticks: 3, Dev: dev, Renom: true}},
 		{fmt.Sprintf("2x1 with restart, D<=%d", dev), pairCfg{KindsA: h2, KindsB: []string{"host"}, Ticks: 4, Dev: dev, Restarts: 1}},
 		{fmt.Sprintf("1x1 A behind NAT (prflx remote), D<=%d", dev), pairCfg{KindsA: []string{"nat"}, KindsB: []string{"host"}, Ticks: 3, Dev: dev}},
+		{fmt.Sprintf("1x1, A's candidate is signalled only after the session is up (the selected pair's peer-reflexive remote is superseded while data flows), D<=%d", dev), pairCfg{KindsA: []string{"host"}, KindsB: []string{"host"}, HoldSignal: []string{"0:0"}, Ticks: 3, Dev: dev}},
 		{fmt.Sprintf("2x1 trickled candidates (a peer-reflexive remote is superseded while data flows), D<=%d", dev), pairCfg{KindsA: h2, KindsB: []string{"host"}, Trickle: true, Ticks: 3, Dev: dev}},
 	}
 	if only := os.Getenv("VERIF_ONLY"); only != "" {
